@@ -33,6 +33,9 @@ impl HistProp {
             if case.cfg.contains_emb() {
                 st.label("stack_with_embedded_lower_layer");
             }
+            if r.summary.shadowed_file_dirs > 0 {
+                st.label("layers_with_directory_over_shadowed_file");
+            }
             if nt {
                 let h = crate::util::fnv(serde_json::to_string(&case.to_json()).unwrap().as_bytes());
                 st.nontrivial.insert(h);
